@@ -206,7 +206,7 @@ func (p *printer) annotation(n *Node) string {
 	if style == 3 {
 		style = p.next(3)
 	}
-	if needsMultiLine(n.Rules) {
+	if needsMultiLine(n.Rules) || strings.ContainsAny(n.Note, "\n\r") {
 		style = 2
 	}
 	ml := style == 2
